@@ -164,8 +164,8 @@ CalcFrame(new) ==
 CalcOk(r, st, strictOrder, strictBytes) ==
   LET new == View(st) IN
   /\ r = "Ok" /\ B(SaneObs(st))
-  /\ CalcFrame(new)
-  /\ LayoutOk(new.slots, new.ssize, new.aalign)
+  /\ B(CalcFrame(new))
+  /\ B(LayoutOk(new.slots, new.ssize, new.aalign))
   /\ B(WeightDoc(new.slots))
   /\ (strictOrder => B(OrderDoc(new)))
   /\ (strictBytes => BytesUsedDoc(new))
@@ -198,8 +198,8 @@ BigCalcOk(ev) ==
   LET n == Len(ev.off) IN
   /\ ev.r = "Ok" /\ ev.argskept
   /\ Len(ev.size) = n /\ Len(ev.align) = n /\ n + ev.nargs = ev.n
-  /\ \A i \in 1 .. n : ev.off[i] >= 0 /\ ev.off[i] % ev.align[i] = 0 /\ ev.off[i] + ev.size[i] <= ev.ssize /\ ev.aalign % ev.align[i] = 0
-  /\ \A i \in 1 .. n - 1 : ev.off[i] <= ev.off[i + 1] /\ ev.off[i] + ev.size[i] <= ev.off[i + 1]
+  /\ B(\A i \in 1 .. n : ev.off[i] >= 0 /\ ev.off[i] % ev.align[i] = 0 /\ ev.off[i] + ev.size[i] <= ev.ssize /\ ev.aalign % ev.align[i] = 0)
+  /\ B(\A i \in 1 .. n - 1 : ev.off[i] <= ev.off[i + 1] /\ ev.off[i] + ev.size[i] <= ev.off[i + 1])
   /\ ev.ssize % ev.aalign = 0
   /\ UNCHANGED v
 
